@@ -4,7 +4,7 @@
    Property theorems only; proofs are in Proofs/.  All statements hold for every rule list, every
    command string and every choice of the oracles (resolve, home). *)
 From DippyV Require Import Base.Str Base.Verdict Model.Fnmatch Model.Glob2 Model.Paths Model.Rules
-  Proofs.FnmatchP Proofs.RulesP.
+  Proofs.FnmatchP Proofs.RulesP Proofs.PathsP Proofs.C09P Proofs.SpellP.
 
 (* the loop `result = None; for r in rules: if m(r): result = r` of every matcher in config.py
    computes the first match of the list read backwards, whatever the predicate *)
@@ -148,6 +148,36 @@ Section Oracles.
   Theorem C07_command_words : forall al rules rr cwd remote ws,
     m_command al rules rr cwd remote ws [] = m_words al rules cwd remote ws.
   Proof. exact (command_no_redirects resolve1 resolve2 home). Qed.
+  (* ---- pattern-side and command-side normalisation agree (second round; seeded change C07b) ----
+     wordb w: w is non-empty and has no character str.split() splits on (a shell word as the matcher
+     receives it).  All four statements hold for EVERY resolve() / home() / cwd: they do not depend on
+     what a path token resolves to, only on both sides being normalised by the same function. *)
+  Theorem C07_pattern_tokenwise : forall cwd p,
+    normalize_pattern resolve1 resolve2 home cwd p
+    = join [c_sp] (map (normalize_token resolve1 resolve2 home cwd) (split_py p)).
+  Proof. exact (pattern_tokenwise resolve1 resolve2 home). Qed.
+  Theorem C07_pattern_is_words : forall cwd ws, forallb wordb ws = true ->
+    normalize_pattern resolve1 resolve2 home cwd (join [c_sp] ws) = normalize_words resolve1 resolve2 home cwd ws.
+  Proof. exact (pattern_is_words resolve1 resolve2 home). Qed.
+  (* a rule whose pattern is the command's own text fires on that command, anchored or not
+     (the hypothesis is on the EXPANDED text, see C09_glob_cwd_refuted) *)
+  Theorem C07_self_match : forall cwd r ws,
+    r_pat r = join [c_sp] ws -> forallb wordb ws = true ->
+    no_glob (normalize_words resolve1 resolve2 home cwd ws) = true ->
+    m_words [] [r] cwd false ws = Some r.
+  Proof. exact (match_words_self resolve1 resolve2 home). Qed.
+  (* followed by more words: fires iff the rule has no | anchor *)
+  Theorem C07_self_match_prefix : forall cwd r ws extra,
+    r_pat r = join [c_sp] ws -> forallb wordb ws = true ->
+    no_glob (normalize_words resolve1 resolve2 home cwd ws) = true -> ws <> [] -> extra <> [] ->
+    wrm cwd false (cstr [] cwd false (ws ++ extra)) r = negb (r_exact r).
+  Proof. exact (self_match_prefix resolve1 resolve2 home). Qed.
+  (* remote mode (since /repo 098b659): no path is resolved on either side, and a leading ~ of a command
+     word is expanded exactly as parse_config expands it in the pattern *)
+  Theorem C07_self_match_remote : forall cwd r ws,
+    r_pat r = join [c_sp] (map (expand_home_only home) ws) -> no_glob (r_pat r) = true ->
+    m_words [] [r] cwd true ws = Some r.
+  Proof. exact (self_match_remote resolve1 resolve2 home). Qed.
 End Oracles.
 Print Assumptions C07_last.
 Print Assumptions C07_inert.
@@ -163,6 +193,16 @@ Print Assumptions C19_after_last.
 Print Assumptions C19_after_inert.
 Print Assumptions C07_command_priority.
 Print Assumptions C07_command_words.
+Print Assumptions C07_pattern_tokenwise.
+Print Assumptions C07_pattern_is_words.
+Print Assumptions C07_self_match.
+Print Assumptions C07_self_match_prefix.
+Print Assumptions C07_self_match_remote.
+
+(* str.split() undoes ' '.join() on shell words *)
+Theorem C07_split_join : forall ws, forallb wordb ws = true -> split_py (join [c_sp] ws) = ws.
+Proof. exact split_py_join. Qed.
+Print Assumptions C07_split_join.
 
 (* match_mcp / match_after_mcp (the matcher half of C14 / C19) *)
 Theorem C14_mcp_last : forall rs tool, match_mcp rs tool = last_such (mcp_rule_matches tool) rs.
